@@ -15,7 +15,14 @@
    solution_pixels, ascii, roundtrip_{pixels,ascii}_{raises,kind,connections,endpoints,solution}
    (the read-back clauses only for a complete picture of a maze inside the premise).
    Layer M (conformance with the Pixels.tla reader / details the statement leaves open):
-   M:post_pixels, M:frompx_model, M:fromascii_model, M:input_malformed. *)
+   M:post_pixels, M:frompx_model, M:fromascii_model, M:input_malformed, M:argument_modified.
+   Audit 2 (input representations, factories, defaults): two optional fields,
+     lay     "" = the record is inside the statement (Layer P);  "M:<name>" = the observation used an input
+             the statement does not quantify over (flags left to their defaults or given as ints, a non-bool
+             connection array, the 2-D black/white grid, re-formatted text): every Layer-P clause it violates
+             is reported as the single Layer-M clause <name>
+     intact  FALSE = a renderer changed the maze value / a reader changed the picture it was given
+   (a record without them is an ordinary Layer-P record whose arguments were left intact). *)
 EXTENDS Pixels, TLC, Json, IOUtils, SequencesExt
 Log == ndJsonDeserialize(IOEnv.VERIF_LOG)
 
@@ -38,7 +45,7 @@ Conforms(d, rt, back, name) ==
 \* FromPx indexes the odd/even lattice: only for odd-sized rectangular pictures
 OddShaped(g) == Len(g) >= 3 /\ Len(g) % 2 = 1 /\ Len(g[1]) >= 3 /\ Len(g[1]) % 2 = 1 /\ \A y \in 1..Len(g) : Len(g[y]) = Len(g[1])
 
-Clauses(r) ==
+BaseClauses(r) ==
   LET m == r.maze  se == r.se  ss == r.ss IN
   IF ~WellFormedMaze(m) THEN {"M:input_malformed"}
   ELSE IF ~Accepted(se, ss) THEN
@@ -52,6 +59,16 @@ Clauses(r) ==
             ELSE {})
     \cup (IF "size" \in ic THEN {} ELSE Conforms(FromPxAs(m.kind, r.img), r.rt_px, r.back_px, "M:frompx_model"))
     \cup (IF OddShaped(r.ascii) THEN Conforms(FromAsciiAs(m.kind, r.ascii), r.rt_ascii, r.back_ascii, "M:fromascii_model") ELSE {})
+
+\* the Layer-M clause names (TLC cannot look into strings)
+MNames == {"M:post_pixels", "M:frompx_model", "M:fromascii_model", "M:input_malformed", "M:argument_modified"}
+LayOf(r) == IF "lay" \in DOMAIN r THEN r.lay ELSE ""
+IntactOf(r) == IF "intact" \in DOMAIN r THEN r.intact ELSE TRUE
+Clauses(r) ==
+  LET b == BaseClauses(r)
+      a == IF IntactOf(r) THEN {} ELSE {"M:argument_modified"} IN
+  IF LayOf(r) = "" THEN b \cup a
+  ELSE (b \cap MNames) \cup a \cup (IF b \subseteq MNames THEN {} ELSE {LayOf(r)})
 
 VARIABLES l, bad
 Init == l = 1 /\ bad = {}
